@@ -16,6 +16,9 @@ def pl(payload):
 
 
 def run(ctx, rep):
+    # the per-day computation is a function of the request alone (C20's R20.5): thread-local or shared state makes a day's result depend on which worker computed which days before it - on the schedule
+    from . import shared as _sh, c20 as _c20h
+    _sh.include(ctx, rep, _c20h.run, {'R20.5'}, why='no thread-local, static or lock-protected state on the computation path')
     rep.explanation = (
         'Schedule-independent structural argument checked on MIR: (R15.1) on every path every Sender value is moved into a spawned '
         'worker or dropped before the collector is joined, the collector loop leaves only on recv() = Err, workers send exactly once; '
